@@ -509,3 +509,158 @@ func TestC10(t *testing.T) {
 		}
 	})
 }
+
+// ---- pending expirations survive a kill ------------------------------------------------------------
+
+type crashExpCase struct {
+	TTL   int        `json:"ttl"`
+	Via   string     `json:"via"`   // entry point that set the expiry
+	Crash CrashPoint `json:"crash"` // where the child dies (after the expiry write was acknowledged)
+	Extra int        `json:"extra"` // further acknowledged writes (without expiry) before the kill
+}
+
+func runCrashExpCase(c crashExpCase) ([]Deviation, error) {
+	var devs []Deviation
+	bad := func(clause, f string, a ...any) {
+		devs = append(devs, Deviation{Clause: clause, Props: []string{"C10", "C14"}, Sig: clause, Msg: fmt.Sprintf(f, a...)})
+	}
+	dir, err := os.MkdirTemp(tmpRoot(), "cexp")
+	if err != nil {
+		return nil, err
+	}
+	defer os.RemoveAll(dir)
+	name := fmt.Sprintf("cx%s_%d", shardTag, time.Now().UnixNano())
+	cfg := Config{Disk: true, Handles: 1, Colls: allCollNames[:1]}
+	steps := []Op{{K: "Set", Key: "keep", Body: []byte(`{"k":1}`)}}
+	exp := ExpSpec{Kind: "abs", V: uint32(c.TTL)}
+	switch c.Via {
+	case "Set":
+		steps = append(steps, Op{K: "Set", Key: "soon", Body: []byte(`{"s":1}`), Exp: exp})
+	case "Touch":
+		steps = append(steps, Op{K: "Set", Key: "soon", Body: []byte(`{"s":1}`)}, Op{K: "Touch", Key: "soon", Exp: exp})
+	case "WriteWithXattrs":
+		steps = append(steps, Op{K: "WriteWithXattrs", Key: "soon", Body: []byte(`{"s":1}`), X: map[string]string{"_sync": `{"seq":1}`}, Cas: CasSpec{Kind: "zero"}, Exp: exp, NilOpts: true})
+	case "Add":
+		steps = append(steps, Op{K: "Add", Key: "soon", Body: []byte(`{"s":1}`), Exp: exp})
+	}
+	expStep := len(steps) - 1
+	for i := 0; i < c.Extra; i++ {
+		steps = append(steps, Op{K: "Set", Key: "keep", Body: []byte(fmt.Sprintf(`{"k":%d}`, i+2))})
+	}
+	// the trailing step is the one the kill interrupts
+	steps = append(steps, Op{K: "Set", Key: "last", Body: []byte(`{"l":1}`)})
+	res, err := RunChild(&ChildPlan{Dir: dir, Name: name, Config: cfg, Steps: steps, Crash: &c.Crash, NoClose: true}, 60*time.Second)
+	if err != nil {
+		return nil, err
+	}
+	if res.Ready == nil {
+		return nil, fmt.Errorf("child did not start: %s %.300s", res.ExitErr, res.Stderr)
+	}
+	if len(res.Acks) <= expStep {
+		return nil, nil // died before the expiry write was acknowledged: nothing to judge
+	}
+	deadline := res.Acks[expStep].Model.Get(0, "soon").Exp
+	if deadline == 0 {
+		bad("crashexp.setup", "the acknowledged expiry write left expiry 0")
+		return devs, nil
+	}
+	w, err := NewWorldAt(cfg, dir, name, true)
+	if err != nil {
+		bad("crash.reopen", "cannot reopen after the kill: %v", err)
+		return devs, nil
+	}
+	defer w.Close()
+	ds := w.Coll(0, 0)
+	if e, gerr := ds.GetExpiry(ctx, "soon"); gerr != nil || e != deadline {
+		bad("crashexp.value", "after reopen GetExpiry(soon) = %d (err %v), the acknowledged expiry was %d", e, gerr, deadline)
+	}
+	// no client activity on the bucket other than reads: the document must go away by itself
+	for {
+		t0 := nowSec()
+		_, _, gerr := ds.GetRaw("soon")
+		t1 := nowSec()
+		if gerr != nil {
+			if t1 < deadline {
+				bad("crashexp.early", "the document expired at second %d, before its expiry %d", t1, deadline)
+			}
+			break
+		}
+		if t0 >= deadline+expGuard {
+			bad("crashexp.late", "the document whose expiry (%d) was acknowledged before the kill is still readable at second %d after reopening: the pending expiration was lost", deadline, t0)
+			break
+		}
+		time.Sleep(100 * time.Millisecond)
+	}
+	if _, _, gerr := ds.GetRaw("keep"); gerr != nil {
+		bad("crash.durable", "an acknowledged document without expiry is gone after reopen: %v", gerr)
+	}
+	return devs, nil
+}
+
+func TestC10Expiry(t *testing.T) {
+	st := statsFor("C10", "TestC10Expiry")
+	st.Rule = "a child process sets a 2-4 s expiry through Set / Add / Touch / WriteWithXattrs, acknowledges it and 0-3 further writes, and is SIGKILLed at a generated hook occurrence of a later write; this process reopens the bucket and only reads: the expiry value must be the acknowledged one, the document must stay until its second and be gone within 5 s after it; non-trivial = all of them (the expiry write was acknowledged before the kill); distinct by case parameters"
+	if replayMode() {
+		rp := loadReplay("TestC10Expiry")
+		if rp == nil {
+			t.Skip("replay file is for another test")
+		}
+		var c crashExpCase
+		if err := json.Unmarshal(rp.Extra, &c); err != nil {
+			t.Fatal(err)
+		}
+		ds, err := runCrashExpCase(c)
+		if err != nil {
+			t.Fatalf("infrastructure: %v", err)
+		}
+		st.Case(1, true, func() any { return c })
+		if len(ds) > 0 {
+			t.Fatalf("property C10 violated by replay:%s", devText(ds))
+		}
+		return
+	}
+	var once sync.Once
+	rapid.Check(t, func(rt *rapid.T) {
+		n := 8
+		cases := make([]crashExpCase, n)
+		for i := range cases {
+			c := crashExpCase{TTL: rapid.IntRange(2, 4).Draw(rt, "ttl"), Via: pick(rt, []string{"Set", "Touch", "WriteWithXattrs", "Add"}, "via"), Extra: rapid.IntRange(0, 3).Draw(rt, "extra")}
+			c.Crash = CrashPoint{Hook: pick(rt, []string{"tx.begin", "cas.afterDocWrite", "tx.beforeCommit", "tx.afterCommit", "cas.beforePost"}, "hook")}
+			// occurrences: one per write for every hook used here; the kill hits the trailing write or one of the extras
+			writes := 2 + c.Extra
+			if c.Via == "Touch" {
+				writes++
+			}
+			c.Crash.Nth = writes + 1 - rapid.IntRange(0, c.Extra).Draw(rt, "back")
+			if c.Via == "Touch" && c.Crash.Hook == "cas.beforePost" {
+				c.Crash.Nth-- // a touch posts no event
+			}
+			cases[i] = c
+		}
+		results := make([][]Deviation, n)
+		errs := make([]error, n)
+		var wg sync.WaitGroup
+		for i := range cases {
+			wg.Add(1)
+			go func(i int) {
+				defer wg.Done()
+				results[i], errs[i] = runCrashExpCase(cases[i])
+			}(i)
+		}
+		wg.Wait()
+		for i, ds := range results {
+			if errs[i] != nil {
+				rt.Fatalf("INFRA: %v", errs[i])
+			}
+			b, _ := json.Marshal(cases[i])
+			st.Case(fnvString(string(b)), true, func() any { return cases[i] })
+			if len(ds) > 0 {
+				once.Do(func() {
+					saveReplay(&Replay{Property: "C10", Test: "TestC10Expiry", Extra: b, Expect: ds})
+					st.Violations++
+				})
+				rt.Fatalf("property C10 violated (replay %s): %+v:%s", replayPath("C10", "TestC10Expiry"), cases[i], devText(ds))
+			}
+		}
+	})
+}
